@@ -290,7 +290,7 @@ public:
         auto[i_x, i_y] = get_intersection();
         auto[min_slope, max_slope] = get_slope_range();
         auto slope = (min_slope + max_slope) / 2.;
-        auto intercept = i_y - (i_x - origin) * slope;
+        auto intercept = std::round(i_y - (i_x - origin) * slope); // round like the integer case above, do not truncate
         return {slope, intercept};
     }
 
